@@ -31,7 +31,7 @@ enum OpCode {
     O_BCAST,         // s, a = autofree
     O_FLOOD,         // s -> t, a = count
     // handler stack / stash
-    O_BECOME,        // s, a = handler id 1..4
+    O_BECOME,        // s, a = handler id 1..4, b = on a throttled module: number of unbecome/become pairs issued right after it
     O_UNBECOME,      // s
     O_STASH,         // s (only meaningful inside s' handler), a = index of the event in the current invocation
     O_UNSTASH,       // s, a = n (0 encodes SIZE_MAX)
@@ -102,6 +102,7 @@ struct Prog {
     std::vector<Op> ops;
     std::string profile; // informational
     int strict = 0;      // 1: known-finding exclusions off (used by the known-finding probes)
+    int cyc = 0;         // 1: callback scripts repeat cyclically (invocation k runs script k mod n); 0: only the first n invocations are scripted
 };
 
 inline void op_text(std::ostringstream &o, const char *kw, const Op &op) {
@@ -113,6 +114,7 @@ inline std::string to_text(const Prog &p) {
     o << "actor1\n";
     if (!p.profile.empty()) o << "profile " << p.profile << "\n";
     if (p.strict) o << "strict " << p.strict << "\n";
+    if (p.cyc) o << "cyc " << p.cyc << "\n";
     o << "nmods " << p.nmods << "\n";
     for (int i = 0; i < p.nmods; i++) o << "mod " << i << " hooks " << p.mods[i].hooks << "\n";
     for (int i = 0; i < p.nmods; i++)
@@ -150,6 +152,7 @@ inline bool from_text(const std::string &text, Prog &p) {
         if (!magic) { if (w != "actor1") return false; magic = true; continue; }
         if (w == "profile") { ls >> p.profile; }
         else if (w == "strict") { ls >> p.strict; }
+        else if (w == "cyc") { ls >> p.cyc; }
         else if (w == "nmods") { ls >> p.nmods; if (p.nmods < 0 || p.nmods > MAX_MODS) return false; }
         else if (w == "mod") { int i; std::string h; ls >> i >> h; if (i < 0 || i >= MAX_MODS) return false; ls >> p.mods[i].hooks; }
         else if (w == "script") {
